@@ -100,7 +100,7 @@ _quick_dir = set(shapes.interesting_quick())
 for c in shapes.cases():
     kind = c["kind"]
     if kind == "remove":
-        props = ["C01", "C07", "C03", "C02", "C04", "C15"]
+        props = ["C01", "C07", "C03", "C02", "C04", "C15", "C09"]
         what = "remove_dir_entry of slot %d (addressed by the other letter case) from the sibling tree shape #%s: removed slot blank and unallocated, EVERY surviving entry keeps its slot, content and reachability, no two adjacent reds, all directory slots written through" % (c["victim"], c["name"])
     elif kind == "insert":
         props = ["C01", "C07", "C03", "C02", "C15", "C17"]
@@ -136,7 +136,7 @@ for (n, tier) in [("stor_write_mid", "quick"), ("stor_write_append", "thorough")
                   ("stor_resize_in_sector", "quick"), ("stor_resize_to_128", "thorough"), ("stor_resize_to_129", "quick"),
                   ("stor_resize_shrink_64", "thorough"), ("stor_resize_shrink_63", "thorough"), ("stor_resize_to_0", "quick"),
                   ("stor_resize_reuse", "quick"), ("stor_resize_frag", "thorough")]:
-    harness(n, props=["C01", "C03", "C08", "C07", "C02", "C06", "C12"] if "read" in n else ["C01", "C03", "C08", "C07", "C02"], tier=tier, timeout=3000, mem=9,
+    harness(n, props=["C01", "C03", "C08", "C07", "C02", "C06", "C12", "C04"] if "read" in n else ["C01", "C03", "C08", "C07", "C02"], tier=tier, timeout=3000, mem=9,
             stubs=[FMT] + ([] if "read" in n else [STUB_COPY]),
             what="real storage functions on a 100-byte stream in a (possibly fragmented) mini chain next to another stream: result, new length, placement by the 4096 cutoff, chain length == ceil(size/64), every stored byte (independent FAT/MiniFAT walk over the image) equals the flat-array model, gained bytes are zero even when reused mini sectors / slack hold arbitrary bytes, the other stream and the rest of the image untouched",
             bounds="offset/length/new size concrete per instance at and next to the 64-byte boundary; all data bytes and slack symbolic",
@@ -158,11 +158,11 @@ for (n, tier) in [("big_remove_4096", "quick"), ("big_remove_4097", "thorough")]
 # ---------------------------------------------------------------- open() on a small unusual layout
 OPEN_F = ["CompoundFile::open_internal", "Header::read_from", "Allocator::new", "Allocator::validate", "Directory::new", "Directory::validate",
           "MiniAllocator::new", "MiniAllocator::validate", "DirEntry::read_from", "Chain::new", "Chain::read", "Entries::next", "Stream::read"]
-for (n, tier) in [("open_valid_permissive", "quick"), ("open_valid_strict", "thorough")]:
-    harness(n, props=["C04", "C02", "C16", "C05", "C17"], tier=tier, timeout=5400, mem=12, fs=8192, stubs=[FMT, STUB_UP, "OsStr :: to_str"],
+for (n, tier) in [("open_valid_permissive", "thorough"), ("open_valid_strict", "thorough")]:
+    harness(n, props=["C04", "C02", "C16", "C05", "C17"], tier=tier, timeout=7200, mem=16, fs=8192, stubs=[FMT, STUB_UP],
             what="open_internal on a valid file laid out unlike this crate's writer (FAT in sector 1, directory chain 4 -> 0 so that the physically last sector's FAT cell is 0, red nodes, unallocated slots): accepted, caches (FAT, MiniFAT, all 8 directory entries) equal what the image encodes, lookups by other letter case, metadata and the bytes of a fragmented mini stream read back",
             bounds="6-sector v3 image; mini stream contents and metadata symbolic", functions=OPEN_F, assumes=[A_SHAPE, A_UPTABLE])
-harness("open_bogus_minifat_then_write", props=["C11", "C05"], tier="quick", timeout=5400, mem=12, fs=8192, stubs=[FMT, STUB_COPY, STUB_UP],
+harness("open_bogus_minifat_then_write", props=["C11", "C05"], tier="thorough", timeout=7200, mem=16, fs=8192, stubs=[FMT, STUB_COPY, STUB_UP],
         what="for EVERY value of the header's first-MiniFAT-sector field on a file with an empty mini stream: if permissive open accepts the file, writing a small stream afterwards returns Ok or Err without panicking or looping",
         bounds="first_minifat_sector: all u32; 6-sector image", functions=OPEN_F + STOR_F + MINI_F, assumes=[A_SHAPE, A_IOCOPY])
 
@@ -198,16 +198,19 @@ A_UPG = "stub: Stream::minialloc (Weak::upgrade) replaced by pointer re-material
 STUB_CACHE = [FMT, "read_data_from_stream", "write_data_to_stream", "resize_stream", "Stream :: minialloc"]
 CACHE_F = ["Stream::read", "Stream::fill_buf", "Stream::consume", "Stream::write", "Stream::seek", "Stream::set_len", "Stream::flush",
            "Stream::flush_changes", "Stream::new", "FlushBuffer::flush_changes", "StreamBuffer::*"]
-for (n, tier, to) in [("cache_hist2_min", "quick", 3000), ("cache_hist2_b12", "quick", 3000), ("cache_hist3_min", "thorough", 7200),
-                      ("cache_hist3_b12", "thorough", 7200), ("cache_hist3_b32", "thorough", 7200), ("cache_hist4_min", "thorough", 14400)]:
-    harness(n, props=["C06", "C18", "C02", "C13", "C10"], tier=tier, timeout=to, mem=16, variant="buf8", fs=8192, stubs=STUB_CACHE,
-            what="k symbolically chosen calls (read n<=12, write n<=12 symbolic bytes, seek Start/Current/End, set_len<=40, flush) on a handle over a 20-byte stream, compared after every call with a byte vector + cursor (result, bytes, position, len()); final flush leaves exactly the model bytes in storage and flushes the file",
-            bounds="k = %s calls, max_buffer_size %s on the scaled 8-byte minimum" % (n[10], "0 (clamped)" if n.endswith("min") else n.split("_b")[1]),
-            functions=CACHE_F, assumes=[A_MODEL, A_BUF8, A_UPG])
+from . import seqs
+A_MODELP = "overlay (cache variant): the three storage functions of stream.rs divert to a flat byte-array model (their contract; the real functions are checked against it by the stor_* harnesses) while the harness has switched it on - under Kani and in native playback alike"
+_cq = set(seqs.quick())
+for c in seqs.cases():
+    harness(c["name"], props=["C06", "C18", "C02", "C13", "C10"], tier=("quick" if c["name"] in _cq else "thorough"), timeout=1800, mem=5,
+            variant="buf8", stubs=[FMT, "Stream :: minialloc"],
+            what="call sequence %s on a handle over a 12-byte stream with symbolic content and symbolic written data, compared after every call with a byte vector + cursor (result, bytes, position, len()); final flush leaves exactly the model bytes in storage and flushes the file" % [seqs.NAMES[o] for o in c["ops"]],
+            bounds="operations and arguments concrete (table of 18 variants on/next to the 8-byte window and the 12-byte length); data symbolic; max_buffer_size %d on the scaled 8-byte minimum" % c["maxbuf"],
+            functions=CACHE_F, assumes=[A_MODELP, A_BUF8, A_UPG])
 
 # ---------------------------------------------------------------- lock discipline (variant lock)
 A_LOCK = "overlay: std::sync::RwLock replaced by an instrumented single-threaded lock that asserts no guard is live on acquisition and lets try_read/try_write fail nondeterministically; thread schedules are NOT explored"
-for n in ["c14_readonly_methods", "c14_stream_ops"]:
+for n in ["c14_lookups", "c14_iter_root", "c14_iter_walk", "c14_iter_storage", "c14_stream_ops"]:
     harness(n, props=["C14"], timeout=3000, mem=10, variant="lock", fs=8192, stubs=[FMT, STUB_UP],
             what="every read-only method, every iterator step (with read-only calls interleaved while the iterator is alive) and every stream operation acquires the lock only while no guard is live and releases it before returning",
             bounds="3-entry file; one call sequence; symbolic contents/metadata", functions=["CompoundFile::*(read-only)", "Entries::next", "Entries::new", "Stream::*"],
@@ -303,3 +306,50 @@ P("C18",
   level_text="Chunking: storage/sector/codec harnesses re-run over a backend returning solver-chosen short counts and Interrupted; buffer sizes: cache histories per listed max_buffer_size against the same model.",
   level_note="std::fs::File is not applicable (system calls cannot be executed symbolically); run-to-run determinism holds relative to the stubbed clock.",
   bounds="2 short events per harness; listed buffer sizes", outside="std::fs::File backend; v4 sector size in the cache harness")
+
+# ---------------------------------------------------------------- quick tier: explicit lists
+from .registry import QUICK
+_RM = ["dir_rm_n4_s8_v3",   # two children, predecessor = left child with a left subtree (top node)
+       "dir_rm_n4_s7_v2",   # two children, predecessor deeper than the left child
+       "dir_rm_n5_s24_v5",  # two children, deep predecessor WITH a left subtree (five nodes)
+       "dir_rm_n3_s2_v2",   # two children, three nodes
+       "dir_rm_n4_s2_v2",   # two children, inner node
+       "dir_rm_n3_s1_v2",   # left child only
+       "dir_rm_n3_s0_v3",   # right child only
+       "dir_rm_n3_s0_v1"]   # leaf
+_INS = ["dir_ins_n3_s0_g1", "dir_ins_n3_s2_g0"]
+_LOOK = ["dir_look_n4_s8", "dir_look_n3_s2"]
+_CQ = seqs.quick()
+QUICK.update({
+    "C01": ["c09_cmp_ascii_2_2", "c09_cmp_sigma_1_2"] + _RM[:4] + _INS[:1] + _LOOK[:1] +
+           ["stor_read_cross", "stor_write_mid", "api_ref_parent_is_stream", "api_ref_new_stream_exists", "big_remove_4096"],
+    "C02": ["alloc_begin_free13", "alloc_extend_nofree", "alloc_free_chain3", "mini_begin_reuse", "mini_free_tail2",
+            "dir_rm_n4_s8_v3", "dir_ins_n3_s0_g1", "dirent_rt_storage_2", "hdr_roundtrip", "api_setters", "difat_second_sector",
+            "cache_c_write_flush_write_read_min"],
+    "C03": ["alloc_begin_nofree", "alloc_free_after3", "mini_begin_after_empty", "mini_free_cross", "mini_free_all",
+            "dir_rm_n4_s8_v3", "dir_rm_n3_s2_v2", "dirent_unallocated_blank", "stor_resize_to_0", "big_5000_to_4096",
+            "big_4096_to_100", "difat_first_sector", "difat_second_sector", "hdr_roundtrip"],
+    "C04": ["c09_cmp_ascii_2_2", "c09_cmp_sigma_2_2", "alloc_next_total", "chain_new_total"] + _LOOK +
+           ["dirent_parse_stream_v3", "dirent_parse_root_v3", "stor_read_cross", "alloc_validate_rel"],
+    "C05": ["alloc_next_total", "chain_new_total", "alloc_validate_rel", "dirent_parse_storage_v3", "dirent_parse_badtype_v3",
+            "dirent_parse_stream_v3"],
+    "C06": ["c06_seek_total", "stor_read_clip"] + _CQ,
+    "C07": _RM + _INS[:1] + ["alloc_free_chain3", "stor_write_mid", "big_4096_to_100", "big_remove_4096", "api_setters"],
+    "C08": ["alloc_begin_free13", "alloc_extend_free3", "stor_resize_in_sector", "stor_resize_reuse", "big_grow_100_to_4200"],
+    "C09": ["c09_cmp_ascii_1_2", "c09_cmp_ascii_2_2", "c09_cmp_sigma_1_2", "c09_cmp_sigma_2_2", "api_invalid_names",
+            "dir_look_n4_s8", "dir_rm_n3_s2_v2"],
+    "C10": ["c06_seek_total", "api_invalid_names", "api_ref_new_stream_exists", "api_ref_parent_is_stream",
+            "api_ref_remove_stream_on_storage", "api_ref_storage_on_stream", "api_ref_escape_root", "api_ref_clsid_on_stream",
+            "cache_c_refused_seeks_change_nothing_min"],
+    "C11": ["alloc_next_total", "chain_new_total"],
+    "C12": ["c12_read_fault_retry", "stor_read_cross"],
+    "C13": ["c13_flush_fault_retry", "c13_free_fault_retry", "cache_c_write_flush_write_read_min"],
+    "C14": ["c14_lookups", "c14_iter_root", "c14_iter_walk", "c14_iter_storage", "c14_stream_ops"],
+    "C15": ["alloc_begin_free13", "alloc_extend_free3", "alloc_free_chain3", "alloc_free_after3", "mini_begin_reuse",
+            "mini_begin_after_empty", "mini_free_tail2", "mini_free_all", "dir_ins_n3_s0_g1", "big_4096_to_100"],
+    "C16": ["dirent_parse_storage_v3", "dirent_parse_stream_v3", "dirent_parse_root_v3", "dirent_parse_badtype_v3",
+            "alloc_validate_rel", "dirent_root_name_lower", "dirent_rt_root"],
+    "C17": ["dirent_rt_storage_2", "dirent_rt_root", "api_setters", "dir_ins_n3_s0_g1", "hdr_roundtrip"],
+    "C18": ["chunky_init_zero", "chunky_init_fat", "chunky_dirent_roundtrip", "cache_c_write_longer_than_buffer_min",
+            "cache_c_write_longer_than_buffer_b12", "cache_c_read_then_shrink_inside_window_min", "cache_c_read_then_shrink_inside_window_b32"],
+})
